@@ -26,3 +26,6 @@ func VerifNewDecoderFromReader(reader io.Reader, bufSize int) *Decoder {
 	dec.buf = make([]byte, bufSize)
 	return dec
 }
+
+// VerifUTF16Length exposes utf16Length to the verification harness (read-only accessor).
+func VerifUTF16Length(s string) int { return utf16Length(s) }
